@@ -8,9 +8,12 @@ history of up to 3 is_async queries, each with an optional interface name
 (<= 2 chars over {f,g,x}), a function name (<= 3 chars over {f,g,#}... see
 bounds), a direction and the WIT async-ness.  Real code: AsyncFilterSet::
 {default, push, is_async, ensure_all_used, debug_opts}, Async::parse and the two
-Display impls, interpreted from source.  `Resolve::name_world_key` is an
-uninterpreted injective naming of the interface (identity on the symbolic
-interface name).
+Display impls, interpreted from source.  An interface key is WorldKey::Name(n) (n symbolic; both wit-parser naming
+functions return n) or one fixed WorldKey::Interface of a versioned package for
+which `name_world_key` = "a:b/i@1.2.3" and `name_canonicalized_world_key` =
+"a:b/i@1" differ (the two functions are modelled separately, so swapping them
+changes the encoding); the function kind ranges over all 7 FunctionKind variants
+and the WIT async-ness is derived from the kind.
 
 Oracle (from the statement and the option's documentation):
   selection   is_async == the `enabled` flag of the first directive (in the order
@@ -34,7 +37,10 @@ from hunt import hunt, self_test
 import models
 
 FILES = ["crates/core/src/async_.rs"]
-AL_DIR = "-alimportex:fg#"
+AL_DIR = "-alimportex:fg#b/@.123"
+R_NWK = "a:b/i@1.2.3"      # Resolve::name_world_key of the versioned interface key the native harness builds
+R_NCWK = "a:b/i@1"         # Resolve::name_canonicalized_world_key of the same key
+ASYNC_KINDS = (1, 3, 5)
 AL_NAME = "fg"
 AL_IFACE = "fgx"
 FK = ["Freestanding", "AsyncFreestanding", "Method", "AsyncMethod", "Static", "AsyncStatic", "Constructor"]
@@ -42,32 +48,41 @@ FK = ["Freestanding", "AsyncFreestanding", "Method", "AsyncMethod", "Static", "A
 
 def bounds(tier):
     if tier == "quick":
-        return dict(ndir=3, dlen=12, ncalls=3, flen=2, ilen=2)
-    return dict(ndir=4, dlen=12, ncalls=3, flen=3, ilen=2)
+        return dict(ndir=3, dlen=21, ncalls=3, flen=2, ilen=2)
+    return dict(ndir=4, dlen=22, ncalls=3, flen=3, ilen=2)
 
 
-def mk_func(name, wit_async):
-    kind = EnumV("FunctionKind", FK, Ite(wit_async, bv(1, 8), bv(0, 8)),
-                 {"Freestanding": [], "AsyncFreestanding": [], "Method": None, "AsyncMethod": None, "Static": None,
-                  "AsyncStatic": None, "Constructor": None})
-    return StructV("Function", {"name": name, "kind": kind})
+def mk_func(name, kind):
+    """kind: BV8 index into FK; the tuple variants carry an opaque TypeId"""
+    pl = {k: ([] if k in ("Freestanding", "AsyncFreestanding") else [OpaqueV("TypeId")]) for k in FK}
+    return StructV("Function", {"name": name, "kind": EnumV("FunctionKind", FK, kind, pl)})
+
+
+def mk_key(ik, iface):
+    """Option<&WorldKey>: ik 0 = None, 1 = WorldKey::Name(iface), 2 = the versioned WorldKey::Interface.
+    A key is modelled by the two names wit-parser gives it (two distinct uninterpreted functions of the key)."""
+    ver = Eq(ik, bv(2, 2))
+    nwk = StrV(bstr.ite(ver, BStr.lit(R_NWK), iface.b))
+    ncwk = StrV(bstr.ite(ver, BStr.lit(R_NCWK), iface.b))
+    return option(Not(Eq(ik, bv(0, 2))), StructV("WorldKey", {"nwk": nwk, "ncwk": ncwk})), nwk
 
 
 def execute(it, directives, calls):
-    """directives: [(present Bool, StrV)], calls: [(has_iface Bool, iface StrV, func StrV, is_import Bool, wit_async Bool)]
-    returns (results [Bool terms], ensure_err Bool, displays [(present, BStr)])"""
+    """directives: [(present Bool, StrV)], calls: [(ik BV2, iface StrV, func StrV, is_import Bool, kind BV8)]
+    returns (results [Bool terms], ensure_err Bool, displays VecV)"""
     it.new_session()
     it.set_var("set", it.default_of("AsyncFilterSet"))
-    resolve = OpaqueV("Resolve", {"name_world_key": lambda key: key})
+    resolve = OpaqueV("Resolve", {"name_world_key": lambda key: it.deref(key).fields["nwk"],
+                                  "name_canonicalized_world_key": lambda key: it.deref(key).fields["ncwk"]})
     for present, d in directives:
         it.branch(present, lambda d=d: it.call("AsyncFilterSet", "push", "set", [d]), lambda: None, "directive present")
     disp = it.deref(it.call("AsyncFilterSet", "debug_opts", "set", []))
     if not isinstance(disp, VecV):
         raise Unsupported("debug_opts does not yield a sequence")
     results = []
-    for has_iface, iface, func, is_import, wit_async in calls:
-        r = it.deref(it.call("AsyncFilterSet", "is_async", "set",
-                             [resolve, option(has_iface, iface), mk_func(func, wit_async), BoolV(is_import)]))
+    for ik, iface, func, is_import, kind in calls:
+        key, _ = mk_key(ik, iface)
+        r = it.deref(it.call("AsyncFilterSet", "is_async", "set", [resolve, key, mk_func(func, kind), BoolV(is_import)]))
         if not isinstance(r, BoolV):
             raise Unsupported("is_async does not return bool")
         results.append(r.term)
@@ -93,8 +108,10 @@ def oracle(directives, calls):
     parsed = [parse_directive(d.b) for _, d in directives]
     decided = [[] for _ in directives]
     expected = []
-    for has_iface, iface, func, is_import, wit_async in calls:
-        full = bstr.ite(has_iface, bstr.concat(bstr.concat(iface.b, BStr.lit("#")), func.b), func.b)
+    for ik, iface, func, is_import, kind in calls:
+        _, nwk = mk_key(ik, iface)
+        full = bstr.ite(Not(Eq(ik, bv(0, 2))), bstr.concat(bstr.concat(nwk.b, BStr.lit("#")), func.b), func.b)
+        wit_async = Or(*[Eq(kind, bv(k, 8)) for k in ASYNC_KINDS])     # the WIT declares it `async`
         ans = wit_async
         taken = FALSE
         per = []
@@ -118,8 +135,9 @@ def py_oracle(dirs, calls):
     exp = []
     used = [False] * len(dirs)
     for c in calls:
-        full = (c["iface"] + "#" if c["iface"] is not None else "") + c["func"]
-        ans = c["wit_async"]
+        iface = R_NWK if c.get("iface_versioned") else c["iface"]
+        full = (iface + "#" if iface is not None else "") + c["func"]
+        ans = c["kind"].startswith("Async")
         for i, d in enumerate(dirs):
             en = not d.startswith("-")
             rest = d[1:] if d.startswith("-") else d
@@ -144,8 +162,8 @@ def case_of(vals, B):
     dirs = [vals["d%d" % i] for i in range(B["ndir"]) if vals["p%d" % i]]
     calls = []
     for j in range(B["ncalls"]):
-        calls.append({"iface": vals["if%d" % j] if vals["hi%d" % j] else None, "func": vals["fn%d" % j],
-                      "import": bool(vals["im%d" % j]), "wit_async": bool(vals["wa%d" % j])})
+        calls.append({"iface": vals["if%d" % j] if vals["ik%d" % j] == 1 else None, "iface_versioned": vals["ik%d" % j] == 2,
+                      "func": vals["fn%d" % j], "import": bool(vals["im%d" % j]), "kind": FK[vals["kd%d" % j]]})
     return {"prop": "C17", "directives": dirs, "calls": calls}
 
 
@@ -165,8 +183,8 @@ def check_native(case, nat):
 
 def concrete_run(it, case):
     dirs = [(TRUE, StrV(BStr.lit(d))) for d in case["directives"]]
-    calls = [(TRUE if c["iface"] is not None else FALSE, StrV(BStr.lit(c["iface"] or "")), StrV(BStr.lit(c["func"])),
-              TRUE if c["import"] else FALSE, TRUE if c["wit_async"] else FALSE) for c in case["calls"]]
+    calls = [(bv(2 if c.get("iface_versioned") else (1 if c["iface"] is not None else 0), 2), StrV(BStr.lit(c["iface"] or "")),
+              StrV(BStr.lit(c["func"])), TRUE if c["import"] else FALSE, bv(FK.index(c["kind"]), 8)) for c in case["calls"]]
     results, e, disp = execute(it, dirs, calls)
     n = bvval(disp.n)
     return {"results": [is_t(r) for r in results], "ensure_err": is_t(e),
@@ -177,12 +195,16 @@ def validate_translator(asts, res, seed):
     it = Interp(asts, dict(tighten="off"))
     rnd = random.Random(seed * 7919 + 17)
     dpool = ["all", "-all", "f", "-f", "g", "import:f", "export:f", "-import:f", "-export:g", "x#f", "import:x#f", "-export:x#f",
-             "import:", "alll", "-", "", "--f", "import:import:f", "export:all", "fg#f"]
+             "import:", "alll", "-", "", "--f", "import:import:f", "export:all", "fg#f",
+             R_NWK + "#f", "import:" + R_NWK + "#f", R_NCWK + "#f", "-export:" + R_NCWK + "#g"]
     cases = []
     for _ in range(200):
         dirs = [rnd.choice(dpool) for _ in range(rnd.randint(0, 4))]
-        calls = [{"iface": rnd.choice([None, None, "x", "fg"]), "func": rnd.choice(["f", "g", "all", "import:f"]),
-                  "import": rnd.random() < 0.5, "wit_async": rnd.random() < 0.5} for _ in range(rnd.randint(0, 3))]
+        calls = []
+        for _ in range(rnd.randint(0, 3)):
+            ifc = rnd.choice([None, None, "x", "fg", "VER"])
+            calls.append({"iface": None if ifc == "VER" else ifc, "iface_versioned": ifc == "VER",
+                          "func": rnd.choice(["f", "g", "all", "import:f"]), "import": rnd.random() < 0.5, "kind": rnd.choice(FK)})
         cases.append({"prop": "C17", "directives": dirs, "calls": calls})
     nat = native_run(cases)
     mism = 0
@@ -208,14 +230,17 @@ def run(ctx):
     B = bounds(tier)
     res.bounds = {"directives": "<= %d directives (each present or absent), every string of length <= %d over {%s}"
                                 % (B["ndir"], B["dlen"], " ".join(AL_DIR)),
-                  "history": "%d is_async queries: optional interface name (<= %d chars over {f,g,x}), function name (1..%d chars "
-                             "over {f,g}), direction and WIT async-ness symbolic" % (B["ncalls"], B["ilen"], B["flen"]),
+                  "history": "%d is_async queries: interface key none | Name(<= %d chars over {f,g,x}) | the versioned interface a:b/i@1.2.3, "
+                             "function name (1..%d chars over {f,g}), direction and function kind (all 7 FunctionKind variants) symbolic"
+                             % (B["ncalls"], B["ilen"], B["flen"]),
                   "start_state": "AsyncFilterSet::default()"}
     res.outside_claim = ["that each backend uses the answer for the ABI it emits (needs whole-generator runs)",
                          "the clap / serde front ends (comma splitting, deserialisation)",
                          "longer directive lists / histories / names, other characters"]
-    res.assumptions = ["Resolve::name_world_key(key) is an uninterpreted name of the interface: the symbolic interface name itself",
-                       "function kinds are Freestanding / AsyncFreestanding (the code only distinguishes async from non-async kinds)"]
+    res.assumptions = ["the documented name of an interface function is Resolve::name_world_key(key) + '#' + function name",
+                       "Resolve::name_world_key / name_canonicalized_world_key are modelled on two kinds of keys only: WorldKey::Name(n) "
+                       "(both = n) and one versioned WorldKey::Interface (a:b/i@1.2.3 vs a:b/i@1), as built by the native harness",
+                       "a function is declared async in WIT iff its FunctionKind is AsyncFreestanding / AsyncMethod / AsyncStatic"]
     res.trusted_base = list(models.MODELS_DOC)
     res.functions = [(FILES[0], "pub fn is_async"), (FILES[0], "pub fn ensure_all_used"), (FILES[0], "pub fn push"),
                      (FILES[0], "fn parse(s: &str) -> Async"), (FILES[0], "impl fmt::Display for Async "),
@@ -231,12 +256,12 @@ def run(ctx):
         d = inp.str("d%d" % i, B["dlen"], AL_DIR)
         directives.append((p, d))
     for j in range(B["ncalls"]):
-        hi = inp.flag("hi%d" % j)
+        ik = inp.small("ik%d" % j, 2, hi=2)
         iface = inp.str("if%d" % j, B["ilen"], AL_IFACE, minlen=1)
         fn = inp.str("fn%d" % j, B["flen"], AL_NAME, minlen=1)
         im = inp.flag("im%d" % j)
-        wa = inp.flag("wa%d" % j)
-        calls.append((hi, iface, fn, im, wa))
+        kd = inp.small("kd%d" % j, 3, hi=6)
+        calls.append((ik, iface, fn, im, z3.ZeroExt(5, kd)))
     it.assume(inp.wf())
     results, ens_err, disp = execute(it, directives, calls)
     res.extra["functions_interpreted"] = sorted("%s:%s" % k for k in it.encoded)
@@ -245,7 +270,8 @@ def run(ctx):
 
     # encoding with inputs fixed vs native
     rnd = random.Random(seed * 104729 + 17)
-    dpool = ["all", "-all", "f", "-f", "g", "import:f", "export:f", "-import:f", "-export:g", "x#f", "import:x#f", "import:", "alll", "-", ""]
+    dpool = ["all", "-all", "f", "-f", "g", "import:f", "export:f", "-import:f", "-export:g", "x#f", "import:x#f", "import:", "alll", "-", "",
+             R_NWK + "#f", R_NCWK + "#f", "import:" + R_NWK + "#g"]
     vl = []
     for _ in range(40):
         vals = {}
@@ -253,11 +279,11 @@ def run(ctx):
             vals["p%d" % i] = rnd.randint(0, 1)
             vals["d%d" % i] = rnd.choice(dpool)
         for j in range(B["ncalls"]):
-            vals["hi%d" % j] = rnd.randint(0, 1)
+            vals["ik%d" % j] = rnd.randint(0, 2)
             vals["if%d" % j] = rnd.choice(["x", "f", "fg"][:2 + (B["ilen"] >= 2)])
             vals["fn%d" % j] = rnd.choice(["f", "g", "fg"][:2 + (B["flen"] >= 2)])
             vals["im%d" % j] = rnd.randint(0, 1)
-            vals["wa%d" % j] = rnd.randint(0, 1)
+            vals["kd%d" % j] = rnd.randint(0, 6)
         vl.append(vals)
     nat = native_run([case_of(v, B) for v in vl])
     mism = 0
@@ -320,7 +346,8 @@ def run(ctx):
          sample="no panic in push / is_async / ensure_all_used / Display")
     if tier == "thorough":
         # mutated oracle: last matching directive decides
-        self_test(dec, res, "selection", base, And(*[Eq(r, wa) for r, (_, _, _, _, wa) in zip(results, calls)]))
+        self_test(dec, res, "selection", base, And(*[Eq(r, Or(*[Eq(kd, bv(k, 8)) for k in ASYNC_KINDS]))
+                                                     for r, (_, _, _, _, kd) in zip(results, calls)]))
     return res
 
 
